@@ -2212,6 +2212,11 @@ int cif_value_init_numb(cif_value_tp *n, double val, double su, int scale, int m
                     su_size = 0;
                 }
 
+                /* rounding may have carried into a higher decimal place than that of the unrounded value */
+                if (*digit_buf != '\0') {
+                    most_significant_place = ((int) strlen(digit_buf)) - 1 - scale;
+                }
+
                 if ((scale >= 0) && (-(most_significant_place + 1) <= max_leading_zeroes)) {
                     /* use decimal notation */
                     result = format_text_decimal(val, digit_buf, su_buf, su_size, scale, &text);
